@@ -307,6 +307,10 @@ class Name(str):
     def startswith(self, p, *a):
         if a or not isinstance(p, str):
             raise Unsupported("Name.startswith form")
+        if self.category == "at":          # a macro-like name: begins with '@'
+            if p == "@":
+                return True
+            raise Unsupported("startswith on a macro name")
         if self.category.startswith("cap"):
             if p == "&":
                 return True
@@ -387,7 +391,22 @@ class SymSeq(list):
     def _unsup(self, *a, **k):
         raise Unsupported("native access to a symbolic sequence")
 
-    __iter__ = __len__ = __getitem__ = __add__ = __radd__ = _unsup
+    __iter__ = __len__ = __getitem__ = _unsup
+
+    def __add__(self, o):
+        # concatenation with a concrete list: the symbolic part is kept as one splice placeholder
+        from .rt import Splice
+        if isinstance(o, SymSeq):
+            return [Splice(self), Splice(o)]
+        if isinstance(o, list):
+            return [Splice(self)] + o
+        return NotImplemented
+
+    def __radd__(self, o):
+        from .rt import Splice
+        if isinstance(o, list):
+            return o + [Splice(self)]
+        return NotImplemented
 
     def __contains__(self, x):
         # membership of a concrete string in a sequence of opaque names: decided by the generic element
